@@ -44,6 +44,9 @@ class LocationTableEntry:
         self.version: int = mib.itsGnProtocolVersion
         self.position_vector_lock = Lock()
         self.position_vector: LongPositionVector = LongPositionVector()
+        # Set once a received PV has been stored: from then on TST == 0 is a timestamp like any
+        # other (it occurs at the 2^32 ms wrap-around), not the mark of an empty entry
+        self._pv_received: bool = False
         self.ls_pending: bool = False
         self.is_neighbour: bool = False
         self.tst_lock = Lock()
@@ -79,14 +82,16 @@ class LocationTableEntry:
             Position vector to update.
         """
         with self.position_vector_lock:
-            if self.position_vector.tst.msec == 0:
+            if not self._pv_received and self.position_vector.tst.msec == 0:
                 # §C.2: initial entry – accept first PV unconditionally.
                 # TST.__gt__ comparison against TST(0) is unreliable for current
                 # real-world timestamps (mod 2^32 > 2^31) due to wrap-around logic.
                 self.position_vector = position_vector
+                self._pv_received = True
             elif position_vector.tst > self.position_vector.tst:
                 # §C.2: received PV is strictly newer → update
                 self.position_vector = position_vector
+                self._pv_received = True
             # §C.2 ELSE: received PV is not newer → do nothing;
             # packet processing continues normally (no exception)
 
